@@ -198,6 +198,22 @@ KSIM_WRAPS = ["socket", "fcntl", "setsockopt", "getsockopt", "getsockname", "get
 KSIM_SOURCES = ["engine/ksim.c", "engine/mcrt_ksim.c"]
 
 
+# thread / time functions the library may call without the scheduler having to know (no blocking, no synchronisation)
+PASS_THROUGH = {"pthread_attr_init", "pthread_attr_destroy", "pthread_attr_setdetachstate", "pthread_attr_getdetachstate", "pthread_attr_setinheritsched", "pthread_attr_getschedpolicy",
+                "pthread_attr_setschedpolicy", "pthread_attr_setschedparam", "pthread_attr_setstacksize", "pthread_self", "pthread_equal", "pthread_getschedparam", "pthread_setschedparam",
+                "sched_get_priority_min", "sched_get_priority_max", "clock_gettime", "gettimeofday", "time"}
+BLOCKING_RE = re.compile(r"^(pthread_|sched_|nanosleep$|clock_nanosleep$|usleep$|sleep$|select$|pselect$|epoll_|sigwait|sigsuspend$|pause$|futex)")
+
+
+def audit_symbols(objs, wraps):
+    """a thread / scheduling / sleeping function that the library calls but the scheduler neither wraps nor knows as harmless would run for
+    real and uncontrolled: that is an engine error with a message naming it, never a silently wrong exploration"""
+    und = undefined_symbols(objs)
+    bad = sorted(sym for sym in und if BLOCKING_RE.match(sym) and sym not in wraps and sym not in PASS_THROUGH)
+    if bad:
+        raise BuildError("library now references thread/sleep functions unknown to the controlled scheduler: %s (add a wrapper in engine/mcrt_pthread.c or list it in PASS_THROUGH)" % ", ".join(bad))
+
+
 def build_mc_exe(name, sources, atomic="c11", rwlock="posix", extra_plain=(), extra_wraps=(), exclude=(), cflags=(), ipc=False, ksim=False):
     if ksim:
         extra_plain = list(extra_plain) + KSIM_SOURCES
@@ -207,6 +223,7 @@ def build_mc_exe(name, sources, atomic="c11", rwlock="posix", extra_plain=(), ex
         extra_wraps = list(extra_wraps) + IPC_WRAPS
     """harness linked with the instrumented library and the mcrt runtime (controlled scheduler + HB monitor)"""
     wraps = MCRT_WRAPS + list(extra_wraps)
+    audit_symbols(build_lib("mc", atomic, rwlock, exclude=exclude), wraps)
     ld = ["-no-pie", "-Wl," + ",".join("--wrap=" + w for w in wraps)]
     return build_exe(name, "mc", sources, atomic=atomic, rwlock=rwlock, ldflags=ld, exclude=exclude, cflags=list(cflags) + ["-fno-pie"],
                      plain_sources=MCRT_SOURCES + list(extra_plain))
